@@ -181,7 +181,7 @@ def _fake_modules():
 
 
 STUB_DESCRIPTIONS = [
-    'edb.server.compiler -> EchoCompiler (reports the state arguments each entry point received; optional injected compile error; fake transaction state object)',
+    'edb.server.compiler -> EchoCompiler (reports the state arguments each entry point received; optional injected compile error); the transaction state it hands out mirrors dbstate.CompilerConnectionState as far as the pool code can see it: set_root_user_schema / root_user_schema, the root user schema is dropped by pickling',
     'edb.graphql.compile_graphql -> echo', 'edb.edgeql.Source/generate_source -> identity',
     'edb.server.dbview.DatabaseIndex -> simulated server state (get_cached_compiler_args)',
     'edb.schema.schema, edb.server.config -> empty type shells (annotations only)',
